@@ -25,6 +25,24 @@ CellOfPt(pt) ==
          pt.target[1], pt.target[2])
 SetPt(pt, f, v) == [pt EXCEPT ![f] = v]
 
+\* named lattice coordinates (cfg files can only write strings and non-negative numbers)
+SchemeOf(n) ==
+  CASE n = "ZM3" -> [fns |-> "ZM-VFNS", nfff |-> 4, nfzm |-> 3] [] n = "ZM4" -> [fns |-> "ZM-VFNS", nfff |-> 4, nfzm |-> 4]
+    [] n = "ZM5" -> [fns |-> "ZM-VFNS", nfff |-> 4, nfzm |-> 5] [] n = "ZM6" -> [fns |-> "ZM-VFNS", nfff |-> 4, nfzm |-> 6]
+    [] n = "FFNS3" -> [fns |-> "FFNS", nfff |-> 3, nfzm |-> 0] [] n = "FFNS4" -> [fns |-> "FFNS", nfff |-> 4, nfzm |-> 0]
+    [] n = "FFNS5" -> [fns |-> "FFNS", nfff |-> 5, nfzm |-> 0]
+    [] n = "FFN03" -> [fns |-> "FFN0", nfff |-> 3, nfzm |-> 0] [] n = "FFN04" -> [fns |-> "FFN0", nfff |-> 4, nfzm |-> 0]
+    [] n = "FONLLS3" -> [fns |-> "FONLL-FFNS", nfff |-> 3, nfzm |-> 0] [] n = "FONLLS4" -> [fns |-> "FONLL-FFNS", nfff |-> 4, nfzm |-> 0]
+    [] n = "FONLL03" -> [fns |-> "FONLL-FFN0", nfff |-> 3, nfzm |-> 0] [] n = "FONLL04" -> [fns |-> "FONLL-FFN0", nfff |-> 4, nfzm |-> 0]
+EwOf(n) ==
+  CASE n = "g1" -> [s2w |-> R(1, 4), r |-> R(1, 5), omd |-> R(1, 2), pol |-> R(1, 3)]
+    [] n = "g2" -> [s2w |-> R(3, 8), r |-> R(2, 3), omd |-> R(5, 4), pol |-> R(-1, 2)]
+    [] n = "u"  -> [s2w |-> R(1, 4), r |-> R(1, 5), omd |-> One, pol |-> Zero]
+ProjOf(n) == CASE n = "e-" -> 11 [] n = "e+" -> -11 [] n = "nu" -> 12 [] n = "nubar" -> -12
+OrderOf(n) == CASE n = "00" -> <<0, 0>> [] n = "11" -> <<1, 1>> [] n = "22" -> <<2, 2>> [] n = "23" -> <<2, 3>>
+                [] n = "12" -> <<1, 2>> [] n = "32" -> <<3, 2>> [] n = "33" -> <<3, 3>> [] n = "21" -> <<2, 1>>
+
+
 \* ------------------------------------------------------------------ relations
 NamedRel(name) == "Named_" \o name
 NamedRels == {NamedRel(n) : n \in NamedTargets}
